@@ -217,6 +217,21 @@ pub fn gen_program(rng: &mut Rng, max_items: usize) -> Prog {
                     if seg == Seg::Data {
                         ram_used += gap;
                     }
+                    // sometimes the assembler looks at another segment before the first item arrives at the
+                    // new origin: the origin is that of this segment, and it waits
+                    if g.rng.chance(1, 3) {
+                        let other = *g.rng.pick(&[Seg::Code, Seg::Data, Seg::Eeprom]);
+                        nodes.push(Node::Seg(other));
+                        if g.rng.chance(1, 2) {
+                            let l = g.names.fresh("lbl", g.rng);
+                            g.labels.push(l.clone());
+                            nodes.push(Node::Label(l));
+                        }
+                        if g.rng.chance(1, 3) {
+                            nodes.push(Node::Seg(*g.rng.pick(&[Seg::Code, Seg::Data, Seg::Eeprom])));
+                        }
+                        nodes.push(Node::Seg(seg));
+                    }
                 }
             }
         }
